@@ -129,6 +129,12 @@ impl NavigationState {
         
     }
 
+    /// Called when a new expression is set: besides `reset`, forget the place markers (they name nodes of the old expression).
+    pub fn reset_for_new_mathml(&mut self) {
+        self.reset();
+        self.place_markers = Default::default();
+    }
+
 
     // defining reset_start_time because of the following message if done inline
     // attributes on expressions are experimental
